@@ -7,7 +7,7 @@ import (
 	"github.com/go-gts/gts"
 )
 
-var featureKeys = []string{"gene", "CDS", "misc_feature", "exon", "mRNA", "repeat_region", "primer_bind"}
+var featureKeys = []string{"gene", "CDS", "misc_feature", "exon", "mRNA", "repeat_region", "primer_bind", "5'UTR", "3'UTR"}
 
 // RandKey draws a feature key; sourceRate/100 of them are "source".
 func RandKey(r *rand.Rand, sourcePct int) string {
